@@ -48,7 +48,12 @@ func (sa *satisfier) follow(ref string) *jv.V {
 	return nil
 }
 
-func (sa *satisfier) pick(n int, label string) int { return rapid.IntRange(0, n-1).Draw(sa.t, label) }
+func (sa *satisfier) pick(n int, label string) int {
+	if n <= 1 {
+		return 0
+	}
+	return rapid.IntRange(0, n-1).Draw(sa.t, label)
+}
 
 func (sa *satisfier) free(depth int) *jv.V {
 	return jv.Gen(jv.Opts{MaxDepth: depth, MaxLen: 3}).Draw(sa.t, "free")
@@ -154,7 +159,16 @@ func intOf(s *jv.V, kw string, def int) int {
 	if x == nil || x.K != jv.Num || !x.N.IsInt() || !x.N.Num().IsInt64() {
 		return def
 	}
-	return int(x.N.Num().Int64())
+	// (documents handed to Satisfy may have been through C10's type confusions: any integer can
+	// stand here; sizes are only ever used to shape small instances)
+	v := x.N.Num().Int64()
+	if v < 0 {
+		return 0
+	}
+	if v > 64 {
+		return 64
+	}
+	return int(v)
 }
 
 func (sa *satisfier) satString(s *jv.V) *jv.V {
